@@ -61,6 +61,10 @@ impl States {
 //@event new free args=0
 //@event push args=0
 //@readonly as_ref,ok
+// the grid is handed to the workers by ndarray's `axis_chunks_iter` - whose chunks cover the axis exactly, the last one
+// shorter (external contract, A7): a REQUIRED anchor - any other way of chunking leaves this unit undecided, and the
+// witness search (n points -> n states, equal to the sequential diagram) decides
+//@on stmt .axis_chunks_iter(Axis(0), $..c) => assert(true);
     ensures
         // the parallel diagram ends with the critical point, like the sequential one
         r is Ok ==> r->Ok_0.states.len_pos && r->Ok_0.states.last_cp
